@@ -20,7 +20,8 @@ Notation step := (step dec_field enc_field enc_set_max cfg).
 Implicit Types c : sconn.
 
 (* the moves of the read loop, of the timers and of the environment.
-   The index is the code the frame parser handed to the read loop with this event, if any. *)
+   The index is the GOAWAY code the event itself brings, if any: the code of the frame parser's error, or NO_ERROR for
+   the idle timer. *)
 Inductive omv (pc : option N) : sconn -> sconn -> Prop :=
 | omv_pop c fr q : sc_sl_done c = false -> sc_readerQ c = fr :: q -> omv pc c (upd_readerQ c q)
 | omv_slexit c : sc_sl_done c = false -> sc_rl_done c = true -> sc_readerQ c = [] ->
@@ -31,7 +32,7 @@ Inductive omv (pc : option N) : sconn -> sconn -> Prop :=
 | omv_rl_expect c n : sc_rl_done c = false -> omv pc c (upd_expectCont c n)
 | omv_rl_fwd c fr : sc_rl_done c = false -> sc_sl_done c = false -> omv pc c (upd_readerQ c (sc_readerQ c ++ [fr]))
 | omv_rl_emit c o : sc_rl_done c = false -> is_frame o -> omv pc c (emit c o)
-| omv_idle c : omv pc c (upd_closer (write_goaway c 0 c_NoError) true)   (* closeIdleConn *)
+| omv_idle c : pc = Some c_NoError -> omv pc c (upd_closer (write_goaway c 0 c_NoError) true)   (* closeIdleConn *)
 | omv_now c t : omv pc c (upd_now c t)
 | omv_wl_dead c : omv pc c (upd_wl_dead c true).
 
@@ -49,7 +50,7 @@ Inductive gmvs (pc : option N) : sconn -> sconn -> Prop :=
 | gmvs_cons a b c : gmv pc a b -> gmvs pc b c -> gmvs pc a c.
 
 Definition parser_code (e : event) : option N :=
-  match e with EvRL (RBadFrame (Some code)) => Some code | _ => None end.
+  match e with EvRL (RBadFrame (Some code)) => Some code | EvIdle => Some c_NoError | _ => None end.
 
 Lemma omvs_one pc a b : omv pc a b -> omvs pc a b.
 Proof. intro H. econstructor; [eassumption | constructor]. Qed.
@@ -169,7 +170,7 @@ Proof.
   - rewrite step_EvClock. eexists. split; [|constructor]. destruct (_ <? _)%Z; [apply omvs_one, omv_now | constructor].
   - rewrite step_EvTimer. exists c. split; [constructor|]. destruct (sc_sl_done c) eqn:Hd; [constructor|].
     apply mvs_sl_timer. assumption.
-  - rewrite step_EvIdle. eexists. split; [apply omvs_one, omv_idle | constructor].
+  - rewrite step_EvIdle. eexists. split; [apply omvs_one, omv_idle; reflexivity | constructor].
   - rewrite step_EvCloser. exists c. split; [constructor|]. destruct (_ && _)%bool eqn:B; [|constructor].
     apply andb_prop in B. destruct B as [_ B]. apply negb_true_iff in B.
     apply mvs0_one, mv_brk. assumption.
